@@ -109,7 +109,7 @@ def spacing_rules(repo):
         b = norm(b)
         dd = [s for s in arm.body if isinstance(s, ast.Assign) and unparse(s.targets[0]) == "d"]
         if swap(a) != b:
-            out.append(violation("R-SIB", fi, role, "else-arm is not the role-swapped image of the if-arm", arm.orelse[0],
+            out.append(named("R-SIB", fi, role, "else-arm is not the role-swapped image of the if-arm", arm.orelse[0],
                                  witness={"if_arm_swapped": swap(a)[:300], "else_arm": b[:300]}))
         elif not dd or unparse(dd[0].value) != "start1 - end0":
             out.append(violation("R-SIB", fi, role, "distance in the left-first arm is `%s`, expected start1 - end0" % (unparse(dd[0].value) if dd else "?"), arm))
@@ -193,6 +193,11 @@ def pair_loops(fi):
     if not any(x is inner[0] for x in ast.walk(outer[0])):
         return [violation("PAIRS", fi, role, "inner loop is not nested in the outer loop", inner[0])]
     out = [holds("PAIRS", fi, role, "outer %s / inner %s" % (unparse(outer[0].iter.args[0]), it), inner[0])]
+    # the clauses below describe executions that go through the pair loops: a return before them is a path they say nothing about
+    early = [n for n in walk_no_nested(fi.node) if isinstance(n, ast.Return) and n.lineno < outer[0].lineno]
+    if early:
+        out.append(unrecognised("PAIRS", fi, "every result is produced by the pair enumeration",
+                                "a `return` at line %d precedes the pair loops: that path is not analysed" % early[0].lineno, early[0]))
     # no early exit: rows of an example are in table order (not sorted by coordinate), so leaving a pair loop
     # before its last element drops pairs that direct enumeration counts
     role2 = "the pair loops run to completion (no break / return / raise inside them: rows are not ordered by coordinate)"
